@@ -219,7 +219,7 @@ func newC11() pbt.Machine[blockOp] { return &c11Machine{maxTxs: 4} }
 func (m *c11Machine) build(variant string) {
 	m.variant = variant
 	m.r0, m.r1, m.r2 = nodeFor(variant), nodeFor(variant), nodeFor(variant)
-	m.h = &hist{n: m.r0, w: newWorld(), rich: 4}
+	m.h = &hist{n: m.r0, w: newWorld(), rich: 4, maxIdle: 12}
 }
 
 func (m *c11Machine) Next(t *rapid.T) blockOp {
@@ -248,6 +248,15 @@ func (m *c11Machine) Apply(op blockOp) error {
 			return nil
 		}
 	}
+	for _, b := range expandIdle(op) {
+		if err := m.applyOne(b); err != nil {
+			return err
+		}
+	}
+	return nil
+}
+
+func (m *c11Machine) applyOne(op blockOp) error {
 	if op.Restart && m.r2.Height >= 1 {
 		m.r2.Restart()
 		m.restarts++
